@@ -37,7 +37,7 @@ _FAMILIES = {
     "bool": ([("true", True, "x && true"), ("false", False, "!x")], "maybe"),
     "string": ([("abc", "abc", "x + '!' == 'abc!'"), ("", "", "x + '!' == '!'")], None),
     "bytes": ([("abc", "YWJj", "x == b'abc'"), ("", "", "x == b''")], None),
-    "list": ([("[1, 2]", [1, 2], "x + [3] == [1, 2, 3]"), ("[]", [], "size(x) == 0")], "nope"),
+    "list": ([("[1, 2]", [1, 2], "x + [3] == [1, 2, 3]"), ("[]", [], "size(x) == 0")], "1 +"),
     "map": ([("{'a': 1}", {"a": 1}, "x.a + 1 == 2"), ("{}", {}, "size(x) == 0")], "nope"),
     "null": ([("null", None, "x == null"), ("", None, "x == null")], None),
     "duration": ([("60s", UNSPEC, "x == duration('60s')"), ("1h", UNSPEC, "x == duration('3600s')")], "xyz"),
